@@ -306,52 +306,8 @@ func C02(run *report.Run) {
 			plans = append(plans, c02Plan{world.LKeyCfg(2, l, 1, B, "big"), []string{"clone", "root+load", "cursor"}, 2, true, 0})
 		}
 	}
-	var families, worlds int64
-	for _, pl := range plans {
-		// bases: the single-slot closure is explored WITHOUT the cache-read ops exploding it:
-		// the base alphabet is ins/del/persist/reload; cached reads happen in the continuation's observers
-		baseCfg := *pl.cfg
-		planStart := time.Now()
-		var bases [][]world.Op
-		if pl.versions == 1 {
-			bases = versionHists(&baseCfg)
-		} else {
-			bases = closureStatesBounded(run, "C02", &baseCfg)
-		}
-		var mu sync.Mutex
-		parallelFor(len(bases)*len(pl.captures), func(idx int) {
-			b := bases[idx/len(pl.captures)]
-			capName := pl.captures[idx%len(pl.captures)]
-			fam := *pl.cfg
-			fam.Seed = append(append([]world.Op{}, b...), c02Captures[capName]...)
-			slots := 2
-			if capName == "clone-of-clone" || capName == "root+load-twice" || capName == "root+coldload-twice" {
-				slots = 3
-			}
-			e := &explore.Explorer{Cfg: &fam, Ops: c02Ops(&fam, slots, pl.allVals), Mon: &c02Mon{}, Reduced: true, MaxDepth: pl.L, Workers: 1}
-			if !world.HookAvailable && pl.L > 1 {
-				e.MaxDepth = 1
-			}
-			e.Run()
-			atomic.AddInt64(&families, 1)
-			atomic.AddInt64(&worlds, e.States)
-			mu.Lock()
-			defer mu.Unlock()
-			if e.HarnessErr != nil {
-				// a capture that cannot be built on this base (e.g. cursor on ...) is a finding of the base run, not here
-				run.HarnessError("%s base %v capture %s: %v", pl.cfg.Name, pl.cfg.DescribeHist(b), capName, e.HarnessErr)
-				return
-			}
-			run.States += e.States
-			run.Transitions += e.Transitions
-			for _, f := range e.Findings {
-				hist := append(append([]world.Op{}, fam.Seed...), f.Hist...)
-				run.Add(report.Violation{Sig: f.Sig + "|capture=" + capName, What: f.What, Detail: f.Detail, Config: pl.cfg.Name, Check: "C02",
-					History: pl.cfg.DescribeHist(hist), Replay: map[string]interface{}{"config": pl.cfg.Name, "ops": hist}, Count: f.Count})
-			}
-		})
-		run.Parts = append(run.Parts, map[string]interface{}{"config": pl.cfg.Name, "bases": len(bases), "captures": pl.captures, "continuation_len": pl.L, "all_values": pl.allVals, "bases_are_persisted_versions": pl.versions == 1, "wall_s": time.Since(planStart).Seconds()})
-	}
+	families, worlds := fanOut(run, "C02", plans, func(*world.Config) explore.Monitor { return &c02Mon{} })
+	_ = worlds
 	// a free two-slot search from the empty world, as a net for combinations the fan-out shape does not anticipate
 	freeDepth := 5
 	if run.Thorough() {
@@ -384,6 +340,60 @@ func C02(run *report.Run) {
 		"then": "every sequence of <=L operations over all slots (insert/delete/MakeRoot/reload/keep/load/clone)", "oracle": "trees not targeted by an op read exactly as before it; every retained root reloads (with and without cache) to its captured contents; the cursor walks its captured entries"})
 	run.Rule = "closure x bounded fan-out: base states = full single-tree closure (engine W); for every base and every capture, BFS over all continuations of length <= L with de-duplication on the heap dump; every transition runs the real implementation"
 	run.Assumptions = append(run.Assumptions, "continuations longer than L after a capture and more than 3 live trees are not explored (a free multi-slot closure does not terminate: 4.1M states at depth 13 for 3 keys)")
+}
+
+// fanOut runs the closure x capture x continuation search of the given plans with the monitor of the
+// calling check: base states = every state of the single-tree closure (or every persisted version), a
+// capture that creates a second (third) tree value of the same version, then every continuation of
+// length <= L over all slots.
+func fanOut(run *report.Run, check string, plans []c02Plan, mon func(*world.Config) explore.Monitor) (int64, int64) {
+	var families, worlds int64
+	for _, pl := range plans {
+		// bases: the single-slot closure is explored WITHOUT the cache-read ops exploding it:
+		// the base alphabet is ins/del/persist/reload; cached reads happen in the continuation's observers
+		baseCfg := *pl.cfg
+		planStart := time.Now()
+		var bases [][]world.Op
+		if pl.versions == 1 {
+			bases = versionHists(&baseCfg)
+		} else {
+			bases = closureStatesBounded(run, check, &baseCfg)
+		}
+		var mu sync.Mutex
+		parallelFor(len(bases)*len(pl.captures), func(idx int) {
+			b := bases[idx/len(pl.captures)]
+			capName := pl.captures[idx%len(pl.captures)]
+			fam := *pl.cfg
+			fam.Seed = append(append([]world.Op{}, b...), c02Captures[capName]...)
+			slots := 2
+			if capName == "clone-of-clone" || capName == "root+load-twice" || capName == "root+coldload-twice" {
+				slots = 3
+			}
+			e := &explore.Explorer{Cfg: &fam, Ops: c02Ops(&fam, slots, pl.allVals), Mon: mon(&fam), Reduced: true, MaxDepth: pl.L, Workers: 1}
+			if !world.HookAvailable && pl.L > 1 {
+				e.MaxDepth = 1
+			}
+			e.Run()
+			atomic.AddInt64(&families, 1)
+			atomic.AddInt64(&worlds, e.States)
+			mu.Lock()
+			defer mu.Unlock()
+			if e.HarnessErr != nil {
+				// a capture that cannot be built on this base (e.g. cursor on ...) is a finding of the base run, not here
+				run.HarnessError("%s base %v capture %s: %v", pl.cfg.Name, pl.cfg.DescribeHist(b), capName, e.HarnessErr)
+				return
+			}
+			run.States += e.States
+			run.Transitions += e.Transitions
+			for _, f := range e.Findings {
+				hist := append(append([]world.Op{}, fam.Seed...), f.Hist...)
+				run.Add(report.Violation{Sig: f.Sig + "|capture=" + capName, What: f.What, Detail: f.Detail, Config: pl.cfg.Name, Check: check,
+					History: pl.cfg.DescribeHist(hist), Replay: map[string]interface{}{"config": pl.cfg.Name, "ops": hist}, Count: f.Count})
+			}
+		})
+		run.Parts = append(run.Parts, map[string]interface{}{"part": "fan-out: closure x capture x continuations", "config": pl.cfg.Name, "bases": len(bases), "captures": pl.captures, "continuation_len": pl.L, "all_values": pl.allVals, "bases_are_persisted_versions": pl.versions == 1, "wall_s": time.Since(planStart).Seconds()})
+	}
+	return families, worlds
 }
 
 // closureStatesBounded returns the shortest histories of all single-tree states
